@@ -263,6 +263,70 @@ example :
        .poll 1 4 false, .poll 2 8 false, .dropGuard 1, .dropGuard 2, .poll 3 12 false, .dropGuard 3]
     s.m.woken = [] ∧ pendingPolled s = [] ∧ s.state = 0 ∧ s.m.st = 0 := by decide
 
+/-! ### Blocking forms: a parked thread is a re-polled task
+
+`read_blocking`, `write_blocking`, `upgrade_blocking` (and the Arc forms) drive the same
+`poll_with_strategy` functions with the `Blocking` strategy; a parked thread resumes after
+`strategy.poll(listener)` has returned, its listener consumed.  For `RawRead` that *is* the notified
+branch of the poll.  For `RawWrite` (`WaitingReaders`) and `RawUpgrade` it is not: a re-polled future
+first re-reads the state word and, if the readers are gone, returns *dropping* its notified listener
+(which re-issues the notification), whereas the resumed thread has *consumed* it.  The two agree
+when nobody else is registered on `no_readers` — which is the case in every reachable state, because
+a waiter on `no_readers` holds the inner mutex (`write`) or the upgradable guard (`upgrade`); that
+uniqueness is stated here as the hypothesis `honly` and is **not** derived from reachability in this
+file, hence `_partial`.  (`upgradable_read_blocking` and the first stage of `write_blocking` park in
+the inner mutex's `AcquireSlow`: `C05_blocking_is_poll`.) -/
+
+/-- a thread parked in `RawRead` (blocking strategy) resumes -/
+def resumeReadBlocking (s : Sys) (fu : Fut) (t : Nat) : RRes :=
+  let f := fu.id
+  -- `strategy.poll(listener)` returned: the entry is gone; `state = lock.state.load()`
+  let s1 := { s with nw := Ev.erase s.nw f }
+  if s.state % 2 = 0 then
+    -- `no_writer.notify(1)`; continue; the CAS succeeds
+    let s2 := s1.notifyNw
+    ⟨{ s2 with state := s.state + 2 }, { fu with seen := s.state, stage := .done }, true, 4⟩
+  else
+    -- continue; writer bit set, no listener: listen, reload; next iteration: park on it
+    ⟨{ s1 with nw := Ev.setTask (Ev.listen s1.nw f) f t }, { fu with seen := s.state }, false, 5⟩
+
+/-- a thread parked in `RawWrite::WaitingReaders` (blocking strategy) resumes -/
+def resumeWaitReadersBlocking (s : Sys) (fu : Fut) (t : Nat) (base : Nat) : RRes :=
+  let f := fu.id
+  -- `strategy.poll(no_readers)` returned: the entry is gone; next iteration: `state.load()`
+  let s1 := { s with nr := Ev.erase s.nr f }
+  if s.state = 1 then ⟨s1, { fu with stage := .done }, true, base + 1⟩
+  else ⟨{ s1 with nr := Ev.setTask (Ev.listen s1.nr f) f t }, { fu with stage := .waitReaders },
+         false, base + 3⟩
+
+/-- **C06 (`read_blocking` is covered).** -/
+theorem C06_blocking_read_is_poll (s : Sys) (fu : Fut) (t : Nat)
+    (hh : Ev.has s.nw fu.id = true) (hn : Ev.isNotified s.nw fu.id = true) :
+    resumeReadBlocking s fu t = pollRead s fu t := by
+  unfold resumeReadBlocking pollRead
+  simp only [hh, hn, Bool.not_true, Bool.false_eq_true, if_false]
+
+/-- **C06 (`write_blocking`, second stage; partial: `honly` assumed, see above).** -/
+theorem C06_blocking_write_is_poll_partial (s : Sys) (fu : Fut) (t base : Nat)
+    (hn : Ev.isNotified s.nr fu.id = true) (honly : Ev.erase s.nr fu.id = []) :
+    resumeWaitReadersBlocking s fu t base = pollWaitReaders s fu t base := by
+  unfold resumeWaitReadersBlocking pollWaitReaders
+  simp only [hn, Bool.not_true, Bool.false_eq_true, if_false]
+  split
+  · simp [Sys.dropNr, Ev.drop, Ev.dropOwners, Ev.dropTasks, hn, honly, Ev.notify_nil,
+      Ev.notifyOwners, Ev.notifyTasks]
+    cases notifyK (Ev.addOf s.nr fu.id) 1 [] <;> simp [notifyO, notifyT]
+  · rfl
+
+/-- without `honly` the two differ: the poll forwards the notification, the resumed thread has
+consumed it (harmless only because no second waiter on `no_readers` can exist) -/
+example :
+    let s : Sys := { state := 1, nr := [{ owner := 0, notified := true, task := some 0 },
+                                         { owner := 7, task := some 28 }] }
+    let fu : Fut := { id := 0, kind := .write, arc := false, stage := .waitReaders }
+    ((pollWaitReaders s fu 0 50).s.nr.map (·.notified)) = [true] ∧
+    ((resumeWaitReadersBlocking s fu 0 50).s.nr.map (·.notified)) = [false] := by decide
+
 end ALock.RwLock
 
 /-! ## Where the notifications are sent (generated site table) -/
